@@ -8,6 +8,11 @@ ids = [p["id"] for p in props]
 LANE_TECH = 'TLA+ (DQState.tla + Lane.tla, one action per atomic access) model-checked with TLC; bound to the code by (1) exhaustive function-level conformance of the real inline dq_state functions against the DQState operators, (2) word-level trace validation of every recorded dq_state access of hooked real executions, (3) the property evaluated on the recorded API order'
 LANE_NOTE = "Bounds: TLC explores 2 clients x 2 pool workers with 3-4 items per configuration (thorough: 4-item programs, ~1e6 states each); the root queue is a fair bag; real executions are seeded samples of schedules (perturbation injected inside the library's atomicity windows), not all of them; function-level conformance is exhaustive over the abstract dq_state domain for widths 1-3."
 CHECKS = {
+ "C09": dict(technique="TLA+ spec (Once.tla) model-checked with TLC (safety + liveness under fairness) + trace validation of hooked real executions of dispatch_once/dispatch_once_f against the same actions + API oracles",
+   text="TLC explores every interleaving of the gate's enter/wait/broadcast steps (one action per atomic on dgo_once and per futex call, inline fast path included) for 3-5 racing threads and checks: initialiser at most once and exactly once before any return, DONE only after completion, late calls immediate, no lost sleeper, every call returns and every sleeper is released under fairness; 6 spec mutants must be refuted; every recorded execution of the real library (hooked atomics + futex probes + API events, 3-5 threads, perturbation and bounded steering) must be a behaviour of that spec with all invariants evaluated in every state.",
+   note="Bounds are 3 threads x 2 calls for liveness (4 x 1 thorough) and 4 x 1 for safety (4 x 2 and 5 x 1 thorough). Futex semantics are assumed (atomic compare+enqueue, wake-all, spurious returns). Real executions are samples of schedules. TLA+ is SC and the machine is TSO: memory orders are compared as tokens only. A trace rejection is reported as a violation, so a wholesale but benign rewrite of the gate would need the spec updated.",
+   design_ref="7/C09"),
+
  "C01": dict(technique=LANE_TECH,
    text="Lane.tla transcribes push / wakeup / drain / unlock / waiter hand-off of a serial or concurrent lane; TLC checks exactly-once, nothing stranded at quiescence, async submission never blocks (ENABLED), sync calls return, and termination under fairness over all interleavings of the configured programs, and refutes the 'unlock ignores DIRTY' mutant. The real dq_state functions are compared with the spec operators on every abstract state; recorded executions (ping-pong resubmission, sync/async mixes, narrowed concurrent queues) must have every dq_state transition explained by the operator of its C function, and every item must run exactly once with no hang.",
    note=LANE_NOTE + " Pool growth when all workers are blocked is not modelled yet (observed only through the hang oracle).", design_ref="7/C01"),
